@@ -365,6 +365,12 @@ fn special_inputs() -> Vec<String> {
         v.push(format!("{c}a=info{c},b"));
         v.push(format!("info/{c}"));
         v.push(format!("a,{c},b=warn"));
+        // in the interior of a part (Unicode white space there makes the part malformed; at the
+        // ends it is trimmed)
+        v.push(format!("a{c}b=info"));
+        v.push(format!("warn, a{c}b"));
+        v.push(format!("a=in{c}fo"));
+        v.push(format!("a{c}b=debug, c=info, d{c}e"));
     }
     // multi-byte characters at every byte offset up to ~190, in every kind of part: catches
     // fixed-width or byte-offset assumptions anywhere in parsing or error reporting
